@@ -203,7 +203,7 @@ fn matrix_part(ctx: &Ctx, res: &mut PartResult, lists: Vec<Option<Vec<&'static s
     let mut states = vseq::States::new();
     for allow in lists {
         if ctx.over_budget() {
-            res.cap_hit = Some("wall budget".into());
+            res.cap_hit = Some("budget (cpu time of the part)".into());
             res.exhaustive = false;
             break;
         }
@@ -280,7 +280,7 @@ fn disturbance_part(ctx: &Ctx, res: &mut PartResult) {
         let mut held: Vec<TcpStream> = Vec::new();
         for seq in &seqs {
             if ctx.over_budget() {
-                res.cap_hit = Some("wall budget".into());
+                res.cap_hit = Some("budget (cpu time of the part)".into());
                 res.exhaustive = false;
                 break;
             }
@@ -479,7 +479,7 @@ fn upkeep_part(ctx: &Ctx, res: &mut PartResult, depth: usize) {
         total += n;
         if !complete {
             res.exhaustive = false;
-            res.cap_hit = Some("wall budget".into());
+            res.cap_hit = Some("budget (cpu time of the part)".into());
             break;
         }
     }
